@@ -103,7 +103,8 @@ structure St where
   /-- running `forall` loops of this context, innermost first (part of the control stack) -/
   iters : List Iter := []
   /-- `_last_error`: set by `BEGINStatement::docatch` when a clause is entered, set back when the clause ends without error to
-  what it was WHEN THE ERROR WAS CAUGHT (`const RuntimeError outer = ctx.error()`, repo 72036d1), left as it is when the clause itself fails -/
+  what it was WHEN THE BLOCK WAS ENTERED (`const RuntimeError outer = ctx.error()` at the top of `BEGINStatement::doit`, repo 72036d1 +
+  8256736), left as it is when the clause itself fails -/
   lastErr : LastErr := LastErr.clear
   /-- `for` / `while` entries of the control stack (`Context::_controlstack`) as far as a run can LEAVE them behind: a program run by
   `Executable::run` never does (its catch-all calls `Context::onRuntimeError`, which unstacks them — in the model `for`/`while` are
@@ -255,8 +256,9 @@ def finishCall (caller : St) (r : Res Flow × St) : Res Val × St :=
   | .unmodelled => (.unmodelled, back)
 
 /-- `docatch` after the clause has run: `ctx.error(outer)` when it ended without error — the record is set back to `outer`, what
-`ctx.error()` held when the error was caught (the error of an enclosing clause that is still running, or none; also a STALE record
-when the error caught comes out of an inner clause that failed) —; a failing clause leaves the record as it is. -/
+`ctx.error()` held when the BLOCK was entered (`BEGINStatement::doit`, repo 8256736: the error of an enclosing clause that is still
+running, or none; a record left behind by an inner clause that failed is NOT what is restored) —; a failing clause leaves the record as
+it is. -/
 def handlerExit (outer : LastErr) (r : Res Flow × St) : Res Flow × St :=
   match r with
   | (.ok fl, s2) => (.ok fl, { s2 with lastErr := outer })
@@ -415,8 +417,9 @@ mutual
 
   /-- `BEGINStatement::doit` + `docatch`: run the body; on a runtime error run the first matching
   `when` clause (an error inside the clause propagates), else re-raise. The caught error is saved in the
-  context (`ctx.error(rt)`) while the clause runs and the record is CLEARED (`ctx.error(RuntimeError())`) when the
-  clause ends without error; when the clause fails the record stays ("kept for debug"). -/
+  context (`ctx.error(rt)`) while the clause runs and the record is SET BACK to what it was on entry of the block
+  (`outer`, taken at the top of `doit`) when the clause ends without error; when the clause fails the record stays
+  ("kept for debug"). -/
   def execBlock (funcs : List Func) (depth : Nat) : Nat → List Stmt → List (String × List Stmt) → EvalM Flow
     | 0, _, _ => oof
     | fuel + 1, body, catches => fun s =>
@@ -425,7 +428,7 @@ mutual
         if c == oofCode then (.err c a, s') else
         match catches.find? (fun cl => catchMatches cl.1 c a) with
         | some (_, handler) =>
-          handlerExit s'.lastErr (execList funcs depth fuel handler { s' with lastErr := (c, a) })
+          handlerExit s.lastErr (execList funcs depth fuel handler { s' with lastErr := (c, a) })
         | none => (.err c a, s')
       | r => r
 
